@@ -2,6 +2,7 @@ package main
 
 import (
 	"fmt"
+	"go/types"
 	"os"
 	"path/filepath"
 	"sort"
@@ -41,7 +42,7 @@ func loadEnv() (*Env, error) {
 func (env *Env) newVC(key, mode string) *VC {
 	fn := env.w.Funcs[key]
 	vc := &VC{w: env.w, cs: env.cs, spec: env.spec, fn: fn, key: key, fc: env.cs.Funcs[key], keySort: map[string]string{}, prims: map[string]bool{},
-		modules: map[string]bool{}, mode: mode, strLits: map[string]string{}, inlined: map[string]bool{}, usedContracts: map[string]bool{}, assumptionsUsed: map[string]bool{}}
+		modules: map[string]bool{}, mode: mode, strLits: map[string]string{}, inlined: map[string]bool{}, usedContracts: map[string]bool{}, assumptionsUsed: map[string]bool{}, globalsUsed: map[string]bool{}}
 	return vc
 }
 
@@ -65,6 +66,7 @@ func (env *Env) verifyFunc(key, mode string) *FuncResult {
 	fr.VC = vc
 	st0heap := map[string]Term{}
 	_ = st0heap
+	tpSubst = map[*types.TypeParam]types.Type{}
 	vc.run()
 	fr.Unbound = vc.unbound
 	return fr
